@@ -59,6 +59,25 @@ static Reg r_utmrev("c13_utmrev", [](const Args& a) {
   if (!e.empty() && t) bad("output-modified-on-throw", "UTMUPS::Reverse threw but modified its outputs");
 });
 
+// UTMUPS::Transfer: every way of throwing (bad zone, Reverse failing, Forward failing, the late UPS hemisphere test) must leave
+// zone / xout / yout untouched, also when xout, yout alias xin, yin (documented)
+static Reg r_utmtransfer("c13_utmtransfer", [](const Args& a) {
+  int zonein = std::atoi(a[0].c_str()); bool northpin = a[1] == "1"; double xin = unhx(a[2]), yin = unhx(a[3]); int zoneout = std::atoi(a[4].c_str()); bool northpout = a[5] == "1";
+  double o[2] = {1.5e77, 2.5e77}; int z = SI;
+  arm(30);
+  std::string e = guarded([&] { UTMUPS::Transfer(zonein, northpin, xin, yin, zoneout, northpout, o[0], o[1], z); });
+  double ax = xin, ay = yin; int z2 = SI;
+  std::string e2 = guarded([&] { UTMUPS::Transfer(zonein, northpin, ax, ay, zoneout, northpout, ax, ay, z2); });   // aliased call
+  arm(0);
+  bool t = o[0] != 1.5e77 || o[1] != 2.5e77 || z != SI;
+  bool t2 = !e2.empty() && (bits(ax) != bits(xin) || bits(ay) != bits(yin) || z2 != SI);
+  emit((e.empty() ? "-" : e) + " " + hx(o[0]) + " " + hx(o[1]) + " w" + (t ? "1" : "0"));
+  if (!e.empty() && e != "!E") bad("foreign-exception", "UTMUPS::Transfer threw " + e);
+  if (!e.empty() && t) bad("output-modified-on-throw", "UTMUPS::Transfer threw but modified zone/xout/yout");
+  if (t2) bad("output-modified-on-throw", "UTMUPS::Transfer (xout, yout aliasing xin, yin) threw but modified its arguments");
+  if (e.empty() != e2.empty()) bad("nondeterministic", "UTMUPS::Transfer aliased and non-aliased calls disagree on throwing");
+});
+
 // ---- code -> position --------------------------------------------------------------------------------------------
 static Reg r_rev("c13_rev", [](const Args& a) {
   const std::string& c = a[0]; std::string s = unhs(a[1]); bool cp = a[2] == "1";
@@ -200,6 +219,15 @@ inline void gen_text(Rng& r, bool thorough) {
   for (int it = 0; it < (thorough ? 300 : 60); ++it) {
     int zone = r.pick(std::vector<int>{-4, -3, -2, -1, 0, 1, 31, 60, 61, 100, INT_MAX, INT_MIN}); double x = r.pick(std::vector<double>{NaN, DINF, -DINF, 5e5, 0, 1e6, 1e308, -1e5, 2e6, 9e5, 1e5}), y = r.pick(std::vector<double>{NaN, DINF, -DINF, 4.4e6, 0, 1e7, 1e308, -1, 2e6, 9.6e6});
     stratum("utmups-reverse-special"); runx("c13_utmrev", {std::to_string(zone), r.coin() ? "1" : "0", hx(x), hx(y), r.coin() ? "1" : "0"});
+  }
+  // Transfer between zones / projections / hemispheres: legal source positions whose target is rejected late (wrong UPS hemisphere,
+  // too far from the target zone), illegal zones, NaN
+  for (int it = 0; it < (thorough ? 2000 : 300); ++it) {
+    int zin = r.pick(std::vector<int>{0, 0, 31, 32, 60, 1, r.irange(1, 60), -1, 61}); bool nin = r.coin();
+    double x = zin == 0 ? r.pick(std::vector<double>{2e6, 1.5e6, 2.5e6, 1.2e6, 2.9e6, NaN}) : r.pick(std::vector<double>{5e5, 2e5, 8e5, 1e5, 9e5, 4.9e5, NaN, DINF});
+    double y = zin == 0 ? r.pick(std::vector<double>{2e6, 1.4e6, 2.6e6, 9e5, 3.1e6}) : r.pick(std::vector<double>{9.4e6, 9.2e6, 4.4e6, 0.0, 1e7, 5e5, 9.9e6, 1e5, 8.9e6, -1e5, NaN});
+    int zout = r.pick(std::vector<int>{0, 0, -1, -2, -3, -4, zin, zin + 1, r.irange(1, 60), 61, -5}); bool nout = r.coin();
+    stratum("utmups-transfer"); runx("c13_utmtransfer", {std::to_string(zin), nin ? "1" : "0", hx(x), hx(y), std::to_string(zout), nout ? "1" : "0"});
   }
   // 2. decoders: INVALID forms, encoder outputs and their mutations
   struct D { const char* c; std::vector<std::string> seeds; std::string alpha; };
